@@ -75,7 +75,7 @@ CLAIMS = {
              "data-dependent on display names), injectivity of (prefix, counter) -> name, single monotone writer of the counters, clone "
              "helpers forwarding dimension / both display names / subscript / assumptions (sibling cross-check), printers showing display "
              "names (also no `__name__` of a library function in the printers' helpers); no identity override or constructor cache on the symbol classes; "
-             "coordinate-system factories return a fresh object on every path; every other call of a name-keyed SymPy base constructor in core/docs is held to the same rule. These quantify over all creation sequences because they are facts about every path of the constructors.",
+             "coordinate-system factories return a fresh object on every path; every other call of a name-keyed SymPy base constructor in core/docs is held to the same rule; no symbol-making function called from a constructor is memoised. These quantify over all creation sequences because they are facts about every path of the constructors.",
         note="Trusts that SymPy treats differently named symbols as distinct under subs/solve/diff. One frozen exception (IndexedSymbol re-created "
              "from an existing SymPy symbol). One defect found and repaired (clone_as_function dropped assumptions).",
         technique="abstract evaluation of the constructors and of the clone helpers on model symbols (what reaches the SymPy base constructor / the new symbol is compared with the property); who-may-write; class-level rules for identity overrides", ref="DESIGN.md §2 C09"),
@@ -119,7 +119,8 @@ CLAIMS = {
              "identities in the components of generic real 3-vectors (so for every assignment), the permutation-sign discipline of the three "
              "products is checked (operands ordered by object identity), operand hooks are always called with (left, right) of the product "
              "being evaluated, every _eval_derivative equals the formal derivative for generic vector functions, and differentiation / "
-             "re-evaluation is well-founded (R5: irreducible vector classes are atomic or hooked; _eval_derivative recurses on strict sub-expressions only).",
+             "re-evaluation is well-founded (R5: irreducible vector classes are atomic or hooked; _eval_derivative recurses on strict sub-expressions only); a higher-order "
+             "derivative hook, where defined, is the n-th formal derivative (orders 2, 3); the norm is absolutely homogeneous (R6: a product of manifestly non-negative factors whose square is v.v).",
         note="Not decided: the multilinear expansion engine (_ordered_mul/into_terms/split_factor run SymPy's expand), termination inside SymPy, "
              "id()-order independence beyond the sign rule. Four defects found and repaired (Binet-Cauchy term; three non-terminating derivative paths).",
         technique="the operand hooks, the three product constructors (against a stand-in for _ordered_mul, shared when it is memoised) and sort_with_sign (on every order pattern of up to three operands) evaluated abstractly on generic component vectors; exact polynomial identity test", ref="DESIGN.md §2 C14"),
@@ -139,8 +140,8 @@ CLAIMS = {
         text="solve_for_vector is evaluated abstractly as a whole in a finite-sum abstraction: for every length 1..4 and every position of the unknown, "
              "for vectors occurring in several terms, coefficients that mention the unknown and Eq inputs, with generic vectors and coefficients, the "
              "returned equation satisfies lhs - rhs = expr/scale (or -expr), i.e. it is equivalent to the input for all coefficient values; non-vector "
-             "inputs and missing unknowns end in a raise; solve_for_scalar never disables SymPy's verification of "
-             "solutions; is_vector_expr refuses products of two or more vectors.",
+             "inputs (a bare dot product included, although its class names its operands lhs/rhs) and missing unknowns end in a raise; solve_for_scalar never disables SymPy's verification of "
+             "solutions and keeps no caller's keywords for the next call; is_vector_expr refuses products of two or more vectors.",
         note="Assumes into_terms/split_factor return the (vector, coefficient) decomposition; solve_for_scalar's solver and vector_equals' simplify are trusted.",
         technique="abstract evaluation of the whole function over generic (vector, coefficient) terms + exact normal form; structural rules for apply/solve_for_scalar/is_vector_expr", ref="DESIGN.md §2 C16"),
     "C18": dict(
@@ -149,15 +150,16 @@ CLAIMS = {
              "so concatenations of balanced sub-results stay balanced. Plus three necessary conditions of the value clause that are visible in "
              "the code: an outer exponent passed to a printer method is used on every path, numbers are never rounded/re-formatted, no f-string "
              "emits an unsubstituted {placeholder}, subscripts are attached as braced groups, the number separator is decided on rendered text, "
-             "no sign is taken out of a power base without an odd-exponent test.",
+             "no sign is taken out of a power base without an odd-exponent test, an override of SymPy's bracket predicates only adds brackets, and no printer built from one caller's settings is kept for the next call.",
         note="Meaning preservation as a whole is NOT claimed (depends on SymPy predicates over run-time trees); SymPy's own LatexPrinter is trusted to be balanced.",
         technique="template extraction from f-strings/%-formats/literals + balance check (structural induction)", ref="DESIGN.md §2 C18"),
     "C19": dict(
         text="The suite never runs the generator. Decided statically over all ~735 documented modules and the generator's own code: exec-compatibility "
              "of the kept prefix under exec(code, {}, context), no __future__ imports, page uniqueness, placeholder discipline, resolvability "
              "of every :symbols:/:quantity_notation: role, absence of order-visible iteration over unordered collections, pairing of the "
-             "evaluation disable/reset nodes and the value reset restores, the role resolvers' registration admitting every Symbol/Quantity, and "
-             "no unsubstituted {placeholder} in the generator's f-strings.",
+             "evaluation disable/reset nodes and the value reset restores, the role resolvers' registration admitting every Symbol/Quantity, "
+             "no unsubstituted {placeholder} in the generator's f-strings, and the page composers print_law / print_package (evaluated for every combination of empty and "
+             "non-empty members, functions, laws and sub-packages) putting every part on the page.",
         note="Does not decide that Sphinx/exec/printing actually succeed on every module. No replica of the generator is kept: patch_sympy_evaluate, "
              "find_title_and_description and find_members_and_functions (up to compile) are evaluated from their source on every module's real syntax tree. "
              "One defect found and repaired (hash-seed dependent role resolution).",
@@ -168,7 +170,7 @@ CLAIMS = {
              "the precision each literal states; the seven identities of the property are evaluated on the folded values; the unit system's "
              "per-quantity tables are written only by Quantity.__init__ for self (who-may-call), the initialiser is never re-run explicitly, and quantity "
              "names come from one process-wide counter.",
-        note="Reference table and tolerances are hard-coded in sa/rules/c20.py; corruption below the stated precision is invisible.",
+        note="Reference table and tolerances are hard-coded in sa/rules/c20.py (the 27 constants plus ~30 CODATA names a maintainer may add); corruption below the stated precision is invisible; a constant under an unknown name or defined through an unknown helper makes the check refuse (exit 2).",
         technique="static constant folding over unit tables read from source; who-may-call scan of the unit-system setters", ref="DESIGN.md §2 C20"),
 }
 
